@@ -300,8 +300,7 @@ def enum_configs(tier):
                     c["rot"] = fixed_rot(shape, kind, v)
                 cfgs.append(c)
     if tier != "quick":
-        cfgs.append({"shape": "2x3", "kind": "normal"})
-        cfgs.append({"shape": "2x3", "kind": "hermitian"})
+        cfgs.append({"shape": "2x3", "kind": "normal"})  # d^4 = 1296 unit HS matrices: sparse basis only (cost)
     return cfgs
 
 
@@ -737,19 +736,15 @@ def lin_case(draw, tier):
     d = gen.dim_of(cfg["shape"])
     n = d * d
     dim = {"vec": n, "herm": n, "vecs": N_POVM_SWEEP * n, "herms": N_POVM_SWEEP * n, "hs": n * n, "herm2": n * n}[CONV[conv][0]]
-    case = {
-        "f": "lin",
-        "cfg": cfg,
-        "conv": conv,
-        "x": draw(gen.raw(dim)),
-        "y": draw(gen.raw(dim)),
-        "a": draw(st.floats(-3, 3, allow_nan=False)),
-        "b": draw(st.floats(-3, 3, allow_nan=False)),
-    }
+    case = {"f": "lin", "cfg": cfg, "conv": conv}
     if conv in ("hs2basis", "vec2basis"):
-        case["to"] = draw(st.sampled_from(["row_major", "column_major", "cfg2"]))
+        case["to"] = draw(st.sampled_from(["cfg2", "column_major", "row_major"]))
         if case["to"] == "cfg2":
             case["cfg2"] = draw(cfg_st((cfg["shape"],)))
+    case["a"] = draw(st.floats(-3, 3, allow_nan=False))
+    case["b"] = draw(st.floats(-3, 3, allow_nan=False))
+    case["x"] = draw(gen.raw(dim))
+    case["y"] = draw(gen.raw(dim))
     return case
 
 
@@ -854,30 +849,25 @@ def agree_case(draw, tier):
     heavy = t in ("gate", "mprocess")
     cfg = draw(cfg_st(gen_shapes(tier, heavy), identity_first=(t == "mprocess")))
     shp = (cfg["shape"],)
-    if t == "state":
-        obj = draw(gen.state_case(shp))
-    elif t == "povm":
-        obj = draw(gen.povm_case(shp, (2, 5)))
-    elif t == "gate":
-        obj = draw(gen.gate_case(shp))
-    else:
-        obj = draw(gen.mprocess_case(shp, (2, 4)))
     case = {
         "f": "agree",
         "cfg": cfg,
-        "obj": obj,
-        "pert": draw(gen.raw(16)),
-        "pert_scale": draw(st.sampled_from([0.0, 0.0, 1e-3, 0.3, 2.0])),
-        "to": draw(st.sampled_from(["row_major", "column_major", "cfg2"])),
+        "pert_scale": draw(st.sampled_from([2.0, 0.3, 1e-3, 0.0, 0.0])),
+        "to": draw(st.sampled_from(["cfg2", "column_major", "row_major"])),
     }
     if case["to"] == "cfg2":
         case["cfg2"] = draw(cfg_st(shp))
-    if t == "povm":
-        # optional multi-dimensional outcome layout through a second factor (tensor product of two POVMs is C07; here
-        # only the documented tuple <-> serial index access of one POVM object is exercised)
-        pass
-    if t == "mprocess":
+    if t in ("mprocess", "povm"):
         case["use_shape"] = draw(st.booleans())
+    case["pert"] = draw(gen.raw(16))
+    if t == "state":
+        case["obj"] = draw(gen.state_case(shp))
+    elif t == "povm":
+        case["obj"] = draw(gen.povm_case(shp, (2, 5)))
+    elif t == "gate":
+        case["obj"] = draw(gen.gate_case(shp))
+    else:
+        case["obj"] = draw(gen.mprocess_case(shp, (2, 4)))
     return case
 
 
@@ -921,6 +911,21 @@ def check_agreement(case, ctx):
             if ok:
                 for w in v:
                     cmp(ctx, "Povm.vec@agree", w, x[i * n : (i + 1) * n], 0.0)
+        shape = _factor_shape(m) if case.get("use_shape") else None
+        if shape is not None:
+            # multi-dimensional outcome layout, set the way quara's own tensor product sets it (operators.py); the documented
+            # tuple access is row-major over nums_local_outcomes
+            p2 = _povm(env, [x[i * n : (i + 1) * n] for i in range(m)])
+            p2._nums_local_outcomes = list(shape)
+            ctx.label("idx:multi")
+            for i in range(m):
+                idx = tuple(int(v) for v in np.unravel_index(i, shape))
+                ok, v = guard(ctx, "Povm.vec[multi]@agree", lambda: p2.vec(idx))
+                if ok:
+                    cmp(ctx, "Povm.vec[multi]@agree", v, x[i * n : (i + 1) * n], 0.0)
+                ok, mtx = guard(ctx, "Povm.matrix[multi]@agree", lambda: p2.matrix(idx))
+                if ok:
+                    cmp(ctx, "Povm.matrix[multi]@agree", mtx, ref[i], env.tol(scale))
         ctx.nontrivial(env.rotated() or is_complex_structured(ref))
         return
     if t == "gate":
@@ -989,17 +994,14 @@ def rt_case(draw, tier):
     n = d * d
     m = draw(st.integers(2, 4))
     size = {"state": n, "var_state": n, "convert_vec": n, "povm": m * n, "var_povm": m * n}.get(kind, n * n)
-    case = {"f": "rt", "cfg": cfg, "kind": kind, "x": draw(gen.raw(size)), "amp": draw(st.sampled_from([1.0, 1.0, 1e-2, 30.0])),
-            "flag": draw(st.booleans())}
+    case = {"f": "rt", "cfg": cfg, "kind": kind, "amp": draw(st.sampled_from([30.0, 1e-2, 1.0, 1.0])), "flag": draw(st.booleans())}
     if kind in ("povm", "var_povm"):
         case["m"] = m
-    if kind in ("hs_choi",):
-        case["fwd"] = draw(st.integers(0, 2))
-        case["inv"] = draw(st.integers(0, 2))
     if kind in ("convert_hs", "convert_vec"):
-        case["to"] = draw(st.sampled_from(["row_major", "column_major", "cfg2", "cfg2"]))
+        case["to"] = draw(st.sampled_from(["cfg2", "cfg2", "column_major", "row_major"]))
         if case["to"] == "cfg2":
             case["cfg2"] = draw(cfg_st((cfg["shape"],)))
+    case["x"] = draw(gen.raw(size))
     return case
 
 
@@ -1064,14 +1066,15 @@ def check_round_trip(case, ctx):
         nontriv = nontriv or is_complex_structured(np.array(ms))
     elif kind == "hs_choi":
         hs = x.reshape(n, n)
-        fwd = getattr(G, CHOI_FWD[case["fwd"]])
-        inv = getattr(G, CHOI_INV[case["inv"]])
-        ctx.label("pair:%d%d" % (case["fwd"], case["inv"]))
-        rt(f"rt:hs->choi->hs[{CHOI_FWD[case['fwd']]},{CHOI_INV[case['inv']]}]", lambda: inv(c, fwd(c, hs.copy())), hs)
         ch = input_from_params(env, "choi2hs", x)
-        rt(f"rt:choi->hs->choi[{CHOI_INV[case['inv']]},{CHOI_FWD[case['fwd']]}]", lambda: fwd(c, inv(c, ch.copy())), ch)
         g = _gate(env, hs)
-        rt("rt:Gate.choi->hs", lambda: inv(c, g.to_choi_matrix_with_sparsity()), hs)
+        for fname in CHOI_FWD:  # every forward implementation against every inverse implementation
+            for iname in CHOI_INV:
+                fwd, inv = getattr(G, fname), getattr(G, iname)
+                rt(f"rt:hs->choi->hs[{fname},{iname}]", lambda: inv(c, fwd(c, hs.copy())), hs)
+                rt(f"rt:choi->hs->choi[{iname},{fname}]", lambda: fwd(c, inv(c, ch.copy())), ch)
+        for iname in CHOI_INV:
+            rt(f"rt:Gate.choi->hs[{iname}]", lambda: getattr(G, iname)(c, g.to_choi_matrix()), hs)
         nontriv = nontriv or is_complex_structured(ch)
     elif kind == "var_choi":
         hs = x.reshape(n, n).copy()
@@ -1124,10 +1127,11 @@ def kraus_case(draw, tier):
     t = draw(st.sampled_from(["gate", "gate", "gate", "mprocess"]))
     cfg = draw(cfg_st(gen_shapes(tier, True), identity_first=(t == "mprocess")))
     shp = (cfg["shape"],)
-    obj = draw(gen.gate_case(shp)) if t == "gate" else draw(gen.mprocess_case(shp, (2, 3)))
+    via = draw(st.sampled_from(["gate_default", "gate_eps", "settings", "argument", "default"]))
     atol = draw(gen.log_uniform(1e-13, 1e-6))
-    band = draw(st.sampled_from(["none", "none", "below", "above"]))
+    band = draw(st.sampled_from(["above", "below", "none", "none"]))
     ratio = {"none": 0.0, "below": draw(gen.log_uniform(1e-3, 0.09)), "above": draw(gen.log_uniform(11.0, 1e6))}[band]
+    obj = draw(gen.gate_case(shp)) if t == "gate" else draw(gen.mprocess_case(shp, (2, 3)))
     return {
         "f": "kraus",
         "cfg": cfg,
@@ -1135,7 +1139,7 @@ def kraus_case(draw, tier):
         "band": band,
         "neg": float(min(ratio * atol, 0.5)),
         "atol": atol,
-        "atol_via": draw(st.sampled_from(["default", "argument", "settings", "gate_eps", "gate_default"])),
+        "atol_via": via,
     }
 
 
@@ -1424,28 +1428,28 @@ FACETS = {
     "linearity": {
         "strategy": lin_case,
         "check": check_linearity,
-        "budget": {"quick": {"examples": 640, "shards": 8}, "thorough": {"examples": 16000, "shards": 16}},
+        "budget": {"quick": {"examples": 640, "shards": 8}, "thorough": {"examples": 12000, "shards": 16}},
         "nontrivial": "both operands and both coefficients non-zero and the combination is complex-structured or the configuration rotated / column-major",
         "min_nontrivial": 30,
     },
     "impl_agreement": {
         "strategy": agree_case,
         "check": check_agreement,
-        "budget": {"quick": {"examples": 640, "shards": 8}, "thorough": {"examples": 16000, "shards": 16}},
+        "budget": {"quick": {"examples": 640, "shards": 8}, "thorough": {"examples": 10000, "shards": 16}},
         "nontrivial": "object with imaginary/antisymmetric component in the computational basis, or rotated basis",
         "min_nontrivial": 30,
     },
     "round_trip": {
         "strategy": rt_case,
         "check": check_round_trip,
-        "budget": {"quick": {"examples": 800, "shards": 8}, "thorough": {"examples": 16000, "shards": 16}},
+        "budget": {"quick": {"examples": 800, "shards": 8}, "thorough": {"examples": 12000, "shards": 16}},
         "nontrivial": "non-zero input that is complex-structured, or rotated basis / column-major target",
         "min_nontrivial": 30,
     },
     "kraus": {
         "strategy": kraus_case,
         "check": check_kraus,
-        "budget": {"quick": {"examples": 640, "shards": 8}, "thorough": {"examples": 12000, "shards": 16}},
+        "budget": {"quick": {"examples": 640, "shards": 8}, "thorough": {"examples": 8000, "shards": 16}},
         "nontrivial": "Choi matrix with imaginary/antisymmetric component, or rotated basis",
         "min_nontrivial": 30,
     },
